@@ -2,7 +2,7 @@
 # Offline setup: nothing to download or prebuild (drivers are compiled by each check against a fresh
 # build of /repo's working tree).  Verifies that the tools the checks rely on are present.
 set -e
-for t in java cc clang make rsync python3 perl; do command -v $t >/dev/null || { echo "missing tool: $t"; exit 1; }; done
+for t in java cc clang make rsync python3 perl valgrind objdump ar localedef apalache-mc; do command -v $t >/dev/null || { echo "missing tool: $t"; exit 1; }; done
 test -f /opt/veriftools/tla/tla2tools.jar
 mkdir -p /verif/evidence /verif/replays
 echo "setup ok"
